@@ -329,6 +329,7 @@ type SMTCtx struct {
 	tagOrder  []string
 	usesF     bool
 	usesStrLt bool
+	inQuant   int // >0 while building the body of a quantifier: no side assertions, no naming
 }
 
 func NewSMTCtx() *SMTCtx {
@@ -361,7 +362,7 @@ func (c *SMTCtx) Fun(name string, args []string, ret string) string {
 }
 
 func (c *SMTCtx) Assert(t Term, note string) {
-	if t.S == "true" {
+	if t.S == "true" || c.inQuant > 0 {
 		return
 	}
 	c.asserts = append(c.asserts, t.S)
@@ -370,7 +371,7 @@ func (c *SMTCtx) Assert(t Term, note string) {
 
 // Named introduces a definitional constant for t (keeps terms small).
 func (c *SMTCtx) Named(prefix string, t Term) Term {
-	if len(t.S) < 40 {
+	if len(t.S) < 40 || c.inQuant > 0 {
 		return t
 	}
 	n := c.Fresh(prefix, t.Sort)
